@@ -238,35 +238,127 @@ def _write_opens(fn: ast.AST) -> T.List[ast.Call]:
     return sorted(out, key=lambda c: c.lineno)
 
 
+def _helper_of(ctx: RuleCtx, mod: Module, qual: str, call: ast.Call) -> T.Optional[T.Tuple[Module, str, T.Any, bool]]:
+    """A repository helper of the same class (self.m / cls.m, MRO) or the same module (bare name): (module, qualname, def, is_method)."""
+    f = call.func
+    if isinstance(f, ast.Attribute) and isinstance(f.value, ast.Name) and f.value.id in ('self', 'cls') and '.' in qual:
+        cname = qual.rsplit('.', 1)[0]
+        if mod.has_func(f'{cname}.{f.attr}'):
+            return mod, f'{cname}.{f.attr}', mod.func(f'{cname}.{f.attr}'), True
+        if mod.has_cls(cname):
+            fm = ctx.repo.find_method(mod, mod.cls(cname), f.attr)
+            if fm is not None:
+                return fm[0], f'{fm[1].name}.{fm[2].name}', fm[2], True
+    if isinstance(f, ast.Name) and mod.has_func(f.id):
+        return mod, f.id, mod.func(f.id), False
+    return None
+
+
+def _bind_args(call: ast.Call, fn: T.Any, is_method: bool) -> T.Dict[str, ast.AST]:
+    pos = [a.arg for a in fn.args.posonlyargs + fn.args.args]
+    if is_method and pos and 'staticmethod' not in {attr_chain(d) for d in fn.decorator_list}:
+        pos = pos[1:]
+    out: T.Dict[str, ast.AST] = {}
+    for i, a in enumerate(call.args):
+        if isinstance(a, ast.Starred):
+            break
+        if i < len(pos):
+            out[pos[i]] = a
+    for k in call.keywords:
+        if k.arg:
+            out[k.arg] = k.value
+    return out
+
+
+def _helper_writes(ctx: RuleCtx, mod: Module, qual: str, call: ast.Call, depth: int = 0) -> T.Optional[str]:
+    """`call` goes to a helper that opens one of its parameters for writing and closes it before it returns:
+    the normalised text of the argument bound to that parameter (the path written), else None."""
+    h = _helper_of(ctx, mod, qual, call)
+    if h is None or depth > 2:
+        return None
+    m2, q2, f2, is_method = h
+    bound = _bind_args(call, f2, is_method)
+    for op in _write_opens(f2):
+        a0 = op.args[0]
+        if isinstance(a0, ast.Name) and a0.id in bound:
+            par = [x for x in walk_no_nested(f2) if isinstance(x, ast.Return) and x.value is op]
+            if par:
+                continue            # hands the open file out: the caller's `with helper(P)` is the handle (judged there)
+            cfg = CFG(f2)
+            closes = _close_nodes(cfg, f2, op, q2)
+            if not all(cfg.must_pass(on, cfg.exit_return, closes, no_exc=True) for on in cfg.node_containing(op)):
+                raise Undecided(f'{q2}: opens its parameter {a0.id} for writing and may return with the file still open')
+            return norm(bound[a0.id])
+    for c in walk_no_nested(f2):
+        if isinstance(c, ast.Call) and c is not call:
+            inner = _helper_writes(ctx, m2, q2, c, depth + 1)
+            if inner is not None and inner in bound:
+                return norm(bound[inner])
+    return None
+
+
+def _helper_finishes(ctx: RuleCtx, mod: Module, qual: str, call: ast.Call, finisher: str, dst_index: int, tmp_index: int) -> T.Optional[T.Tuple[str, str]]:
+    """`call` goes to a helper in which every normal path passes finisher(<param>, <param>): (dst text, tmp text) as bound at the call."""
+    h = _helper_of(ctx, mod, qual, call)
+    if h is None:
+        return None
+    m2, q2, f2, is_method = h
+    bound = _bind_args(call, f2, is_method)
+    cands = [c for c in walk_no_nested(f2) if isinstance(c, ast.Call) and (attr_chain(c.func) or '').split('.')[-1] == finisher
+             and len(c.args) > max(dst_index, tmp_index) and all(isinstance(c.args[i], ast.Name) and c.args[i].id in bound for i in (dst_index, tmp_index))]
+    if not cands:
+        return None
+    cfg = CFG(f2)
+    for c in cands:
+        nodes = cfg.node_containing(c)
+        if nodes and cfg.must_pass(cfg.entry, cfg.exit_return, nodes, no_exc=True):
+            return norm(bound[c.args[dst_index].id]), norm(bound[c.args[tmp_index].id])   # type: ignore[attr-defined]
+    return None
+
+
 def _finished_by(ctx: RuleCtx, mod: Module, qual: str, finisher: str, dst_index: int, tmp_index: int) -> int:
-    """Every open(P, 'w') in the function is followed on every normal path by finisher(.., P, ..) whose destination differs from P."""
+    """Every open(P, 'w') in the function - directly or in a same-class / same-module helper that is handed P - is followed on every
+    normal path by finisher(.., P, ..) whose destination differs from P, and only after the writer was closed."""
     fn = mod.func(qual)
-    opens = _write_opens(fn)
-    if not opens:
+    calls = [c for c in walk_no_nested(fn) if isinstance(c, ast.Call)]
+    sites: T.List[T.Tuple[ast.Call, str, bool]] = [(op, norm(op.args[0]), True) for op in _write_opens(fn)]
+    for c in calls:
+        if not any(c is s[0] for s in sites):
+            pw = _helper_writes(ctx, mod, qual, c)
+            if pw is not None:
+                sites.append((c, pw, False))
+    if not sites:
         return 0
     cfg = CFG(fn)
-    for op in opens:
-        p = norm(op.args[0])
+    for op, p, direct in sites:
         fins = []
-        for c in walk_no_nested(fn):
-            if isinstance(c, ast.Call) and (attr_chain(c.func) or '').split('.')[-1] == finisher and len(c.args) > max(dst_index, tmp_index):
+        for c in calls:
+            if (attr_chain(c.func) or '').split('.')[-1] == finisher and len(c.args) > max(dst_index, tmp_index):
                 if norm(c.args[tmp_index]) == p and norm(c.args[dst_index]) != p:
+                    fins.append(c)
+            elif c is not op:
+                hf = _helper_finishes(ctx, mod, qual, c, finisher, dst_index, tmp_index)
+                if hf is not None and hf[1] == p and hf[0] != p:
                     fins.append(c)
         open_nodes = cfg.node_containing(op)
         if not open_nodes:
             raise Undecided(f'{qual}: open() call not found in the CFG')
         fin_nodes = [n for c in fins for n in cfg.node_containing(c)]
         ok = bool(fin_nodes) and all(cfg.must_pass(on, cfg.exit_return, fin_nodes, no_exc=True) for on in open_nodes)
-        ctx.require(ok, f'{mod.rel}:{qual}: `{short(op, 50)}` writes a temporary and every normal path ends in {finisher}(final, {p})',
+        what = short(op, 50) if direct else f'{short(op, 50)} (helper that opens its argument for writing and closes it)'
+        ctx.require(ok, f'{mod.rel}:{qual}: `{what}` writes a temporary and every normal path ends in {finisher}(final, {p})',
                     mod, qual, op,
                     (f'`{short(op, 60)}` is not followed on every normal path by {finisher}(<final>, {p}): ' +
                      ('no such call exists - the final name is opened directly, so the file is rewritten (mtime changes) even when its content is unchanged'
                       if not fins else 'some path leaves the function without it')), op)
         # publication happens after the writer is closed: a still open (unflushed) temporary compares different / is moved half-written
         if fin_nodes:
-            closes = _close_nodes(cfg, fn, op, qual)
-            early = [fnode for fnode in fin_nodes for on in open_nodes
-                     if cfg.can_reach(on, fnode, no_exc=True) and not cfg.must_pass(on, fnode, closes, no_exc=True)]
+            closes: T.List[T.Any] = []
+            early: T.List[T.Any] = []
+            if direct:
+                closes = _close_nodes(cfg, fn, op, qual)
+                early = [fnode for fnode in fin_nodes for on in open_nodes
+                         if cfg.can_reach(on, fnode, no_exc=True) and not cfg.must_pass(on, fnode, closes, no_exc=True)]
             # any other `with <call>(..., P, ...)` is a handle on the same temporary (e.g. a helper that re-opens it for appending)
             holders = 0
             for w in walk_no_nested(fn):
@@ -279,12 +371,12 @@ def _finished_by(ctx: RuleCtx, mod: Module, qual: str, finisher: str, dst_index:
                     early += [fnode for fnode in fin_nodes for en in enters
                               if cfg.can_reach(en, fnode, no_exc=True) and not cfg.must_pass(en, fnode, exits, no_exc=True)]
             ctx.require(not early, f'{mod.rel}:{qual}: the file opened by `{short(op, 40)}`{f" (and {holders} further with-handle(s) on {p})" if holders else ""} is closed on every path before {finisher}(final, {p}) '
-                        f'({len(closes)} close node(s))', mod, qual, f'{finisher}(..., {p}) before close of {short(op, 40)}',
+                        f'({len(closes) if direct else "closed inside the helper"} close node(s))', mod, qual, f'{finisher}(..., {p}) before close of {short(op, 40)}',
                         f'{finisher}(final, {p}) can run before the writer is closed (the call is reachable from `{short(op, 50)}` without passing '
                         "the with-exit / .close() of that file): the temporary is still unflushed, so the comparison sees a difference and the "
                         'unchanged output is replaced on every reconfigure (or a truncated file is published)',
                         early[0].ast if early else op)
-    return len(opens)
+    return len(sites)
 
 
 def _close_nodes(cfg: CFG, fn: ast.AST, op: ast.Call, qual: str) -> T.List[T.Any]:
@@ -336,8 +428,9 @@ def _replace_if_different(ctx: RuleCtx) -> None:
     if len(params) != 2:
         raise Undecided('replace_if_different: expected (dst, dst_tmp)')
     dst, tmp = params
-    # Family note: nothing is executed here.  Paths are enumerated syntactically; a path is discarded only when it tests the bare flag
-    # variable against the truth value of the *literal constant* that reaches the test on that same path (reaching-definition
+    # Family note: nothing is executed here.  Paths are enumerated syntactically; a path is discarded only when it tests a bare flag
+    # variable against the truth value of the *literal constant* that reaches the test on that same path (a flag that was bound to the
+    # read-comparison itself stands for that atom) (reaching-definition
     # constant propagation = folding a constant, FAMILY POLICY (a)); the calls on each remaining path are compared by callee name
     # and normalised argument text (policy (d)).
     pths = pathsmod.enumerate_paths(fn.body, handlers=True)
@@ -346,36 +439,62 @@ def _replace_if_different(ctx: RuleCtx) -> None:
     for p in pths:
         if p.outcome == 'raise':
             continue
-        consts: T.Dict[str, T.Any] = {}
+        # per path: what each local flag holds - ('const', literal) or ('cmp', polarity): the outcome of the content comparison
+        flags: T.Dict[str, T.Tuple[str, T.Any]] = {}
         equal: T.Optional[bool] = None
         feasible = True
         handler = False
         calls: T.List[ast.Call] = []
+
+        def cmp_polarity(e: ast.AST) -> T.Optional[bool]:
+            """True: e holds iff the contents are equal; False: iff they differ; None: e is not the content comparison."""
+            if isinstance(e, ast.UnaryOp) and isinstance(e.op, ast.Not):
+                r = cmp_polarity(e.operand)
+                return None if r is None else not r
+            if isinstance(e, ast.Name) and flags.get(e.id, ('', None))[0] == 'cmp':
+                return bool(flags[e.id][1])
+            if isinstance(e, ast.Compare) and len(e.ops) == 1 and isinstance(e.ops[0], (ast.Eq, ast.NotEq)) \
+                    and all(isinstance(x, ast.Call) and isinstance(x.func, ast.Attribute) and x.func.attr == 'read' for x in (e.left, e.comparators[0])):
+                return isinstance(e.ops[0], ast.Eq)
+            return None
+
         for ev in p.events:
             if ev.kind == 'exc':
                 handler = True
-            if ev.kind == 'stmt' and isinstance(ev.node, ast.Assign) and len(ev.node.targets) == 1 and isinstance(ev.node.targets[0], ast.Name):
+            if ev.kind == 'stmt' and isinstance(ev.node, (ast.Assign, ast.AnnAssign)):
+                tg = ev.node.targets if isinstance(ev.node, ast.Assign) else [ev.node.target]
                 v = ev.node.value
-                if isinstance(v, ast.Constant):
-                    consts[ev.node.targets[0].id] = v.value
-                else:
-                    consts.pop(ev.node.targets[0].id, None)
+                if len(tg) == 1 and isinstance(tg[0], ast.Name) and v is not None:
+                    pol = cmp_polarity(v)
+                    if isinstance(v, ast.Constant):
+                        flags[tg[0].id] = ('const', v.value)
+                    elif pol is not None:
+                        flags[tg[0].id] = ('cmp', pol)
+                    elif isinstance(v, ast.Name) and v.id in flags:
+                        flags[tg[0].id] = flags[v.id]
+                    else:
+                        flags.pop(tg[0].id, None)
             if ev.kind == 'cond':
                 e = ev.node
-                if isinstance(e, ast.Name) and e.id in consts and bool(consts[e.id]) != ev.val:
-                    feasible = False
-                    break
-                if isinstance(e, ast.Compare) and len(e.ops) == 1 and isinstance(e.ops[0], (ast.Eq, ast.NotEq)) \
-                        and all(isinstance(x, ast.Call) and isinstance(x.func, ast.Attribute) and x.func.attr == 'read' for x in (e.left, e.comparators[0])):
-                    equal = ev.val if isinstance(e.ops[0], ast.Eq) else not ev.val
+                if isinstance(e, ast.Name) and flags.get(e.id, ('', None))[0] == 'const':
+                    if bool(flags[e.id][1]) != ev.val:
+                        feasible = False
+                        break
+                    continue
+                pol = cmp_polarity(e)
+                if pol is not None:
+                    now = ev.val if pol else not ev.val
+                    if equal is not None and equal != now:
+                        feasible = False
+                        break
+                    equal = now
             if ev.kind in ('stmt',) and ev.node is not None:
                 calls += [c for c in walk_no_nested(ev.node) if isinstance(c, ast.Call)]
         if not feasible:
             continue
         if equal is None and not handler:
-            # the try body was left before the comparison (normal-path enumeration keeps such prefixes out); nothing to judge
-            if not any(e.kind == 'cond' for e in p.events):
-                raise Undecided('replace_if_different: a path without the content comparison and without a handler')
+            # neither the comparison outcome nor the missing-destination handler is known on this path: cannot be judged
+            raise Undecided(f'replace_if_different: a path on which the outcome of the content comparison is not tested: {p.describe()[:160]}')
         n += 1
         repl = [c for c in calls if attr_chain(c.func) in ('os.replace', 'os.rename', 'shutil.move')]
         unl = [c for c in calls if attr_chain(c.func) in ('os.unlink', 'os.remove')]
